@@ -550,6 +550,122 @@ theorem multipleOption_equiv_congr (p : MultipleOption.P) (x y : MultipleOption.
         simp only [hs, Except.ok.injEq] at hx; subst hx
         exact ⟨_, rfl, rfl, ⟨rfl, rfl, Periodic.Equiv.refl _, rfl⟩⟩
 
+/-! ### the well-formedness hypotheses are kept by every other reducer too (so they hold on every reachable
+    state, starting from the default states whose `Periodic`s satisfy the pydantic constraints) -/
+theorem robotSummon_wf_use (p : RobotSummonSkill.P) (s : RobotSummonSkill.S) (r : RobotSummonSkill.S × List REv)
+    (hw : s.periodic.WF) (h : RobotSummonSkill.use p s = .ok r) : r.1.periodic.WF := by
+  unfold RobotSummonSkill.use at h
+  split at h
+  · cases h; exact hw
+  · cases hs : s.periodic.setTimeLeft p.lastingEff with
+    | error e => simp [hs] at h
+    | ok q => simp only [hs, Except.ok.injEq] at h; subst h; exact periodic_setTimeLeft_wf _ _ _ hw hs
+theorem magicCurcuit_wf_use (p : MagicCurcuit.P) (s : MagicCurcuit.S) (r : MagicCurcuit.S × List REv)
+    (hw : s.periodic.WF) (h : MagicCurcuit.use p s = .ok r) : r.1.periodic.WF := by
+  unfold MagicCurcuit.use at h
+  split at h
+  · cases h; exact hw
+  · cases hs : s.periodic.setTimeLeft p.lastingDuration with
+    | error e => simp [hs] at h
+    | ok q => simp only [hs, Except.ok.injEq] at h; subst h; exact periodic_setTimeLeft_wf _ _ _ hw hs
+theorem adeleStorm_wf_use (p : AdeleStorm.P) (s : AdeleStorm.S) (r : AdeleStorm.S × List REv)
+    (hw : s.periodic.WF) (h : AdeleStorm.use p s = .ok r) : r.1.periodic.WF := by
+  unfold AdeleStorm.use at h
+  simp only [] at h
+  split at h
+  · cases h; exact hw
+  · split at h
+    · cases h; exact hw
+    · cases hs : s.periodic.setTimeLeft p.lastingDuration with
+      | error e => simp [hs] at h
+      | ok q => simp only [hs, Except.ok.injEq] at h; subst h; exact periodic_setTimeLeft_wf _ _ _ hw hs
+/-- `pause` writes the listened delay into the counter: `WF` is kept for a positive delay -/
+theorem hommingMissile_wf_use_pause (p : HommingMissile.P) (s : HommingMissile.S) (hw : s.periodic.WF) :
+    (∀ r, HommingMissile.use p s = .ok r → r.1.periodic.WF) ∧
+    (∀ time, 0 < time → (HommingMissile.pause p time s).1.periodic.WF) := by
+  refine ⟨?_, fun time ht => ⟨hw.1, ht⟩⟩
+  intro r h
+  unfold HommingMissile.use at h
+  split at h
+  · cases h; exact hw
+  · cases hs : s.periodic.setTimeLeft p.lastingDuration with
+    | error e => simp [hs] at h
+    | ok q => simp only [hs, Except.ok.injEq] at h; subst h; exact periodic_setTimeLeft_wf _ _ _ hw hs
+theorem multipleOption_wf_preserved (p : MultipleOption.P) (t : Int) (s : MultipleOption.S) (hw : s.periodic.WF)
+    (hc : s.cycle.period ≠ 0) :
+    (∀ r, MultipleOption.use p s = .ok r → r.1.periodic.WF ∧ r.1.cycle.period ≠ 0) ∧
+    (∀ r, MultipleOption.elapse p t s = .ok r → r.1.periodic.WF ∧ r.1.cycle.period ≠ 0) := by
+  refine ⟨?_, ?_⟩
+  · intro r h
+    unfold MultipleOption.use at h
+    split at h
+    · cases h; exact ⟨hw, hc⟩
+    · cases hs : s.periodic.setTimeLeft p.lastingDuration with
+      | error e => simp [hs] at h
+      | ok q => simp only [hs, Except.ok.injEq] at h; subst h; exact ⟨periodic_setTimeLeft_wf _ _ _ hw hs, hc⟩
+  · intro r h
+    obtain ⟨r', hr', hp⟩ := MultipleOption.ticks_defined p (s.periodic.elapse' t).2.toNat s.cycle hc
+    unfold MultipleOption.elapse at h
+    simp only [hr', Except.ok.injEq] at h
+    subst h
+    exact ⟨Periodic.elapse_wf _ _ hw, by simp only []; rw [hp]; exact hc⟩
+theorem adeleRuin_wf_use (p : AdeleRuin.P) (s : AdeleRuin.S) (r : AdeleRuin.S × List REv)
+    (hw1 : s.first.WF) (hw2 : s.second.WF) (h : AdeleRuin.use p s = .ok r) : r.1.first.WF ∧ r.1.second.WF := by
+  unfold AdeleRuin.use at h
+  split at h
+  · cases h; exact ⟨hw1, hw2⟩
+  · cases hf : s.first.setTimeLeft p.lastingDurationFirst with
+    | error e => simp [hf] at h
+    | ok f =>
+      cases hg : s.second.setTimeLeft (p.lastingDurationFirst + p.lastingDurationSecond) with
+      | error e => simp [hf, hg] at h
+      | ok g =>
+        simp only [hf, hg, Except.ok.injEq] at h; subst h
+        exact ⟨periodic_setTimeLeft_wf _ _ _ hw1 hf, periodic_setTimeLeft_wf _ _ _ hw2 hg⟩
+/-- the listened reducers of the ether gauge do not touch its `Periodic` -/
+theorem adeleEther_wf_others (p : AdeleEther.P) (s : AdeleEther.S) :
+    (AdeleEther.trigger p s).1.periodic = s.periodic ∧ (AdeleEther.resonance p s).1.periodic = s.periodic ∧
+    (AdeleEther.order p s).1.periodic = s.periodic := ⟨rfl, rfl, rfl⟩
+theorem mecaCarrier_inv_use (p : MecaCarrier.P) (s : MecaCarrier.S) (hi : s.periodic.Inv)
+    (hl : 0 ≤ p.lastingDuration) (hc : 0 ≤ p.startIntercepter) : (MecaCarrier.use p s).1.periodic.Inv := by
+  unfold MecaCarrier.use
+  split
+  · exact hi
+  · obtain ⟨⟨h1, h2, _, h4⟩, _⟩ := hi
+    refine ⟨⟨h1, h2, hc, h4⟩, ?_⟩
+    intro h
+    simp only [DynamicIntervalPeriodic.setTimeLeft] at h
+    omega
+theorem fullMetalBarrage_inv_use_stop (p : FullMetalBarrage.P) (s : FullMetalBarrage.S) (hi : s.keydown.Inv)
+    (hd : 0 ≤ p.prepareDelay) : (FullMetalBarrage.use p s).1.keydown.Inv ∧ (FullMetalBarrage.stop p s).1.keydown.Inv := by
+  refine ⟨?_, ?_⟩
+  · have h : (FullMetalBarrage.use p s).1.keydown = s.keydown ∨
+        (FullMetalBarrage.use p s).1.keydown = s.keydown.start p.maximumKeydownTime p.prepareDelay := by
+      unfold FullMetalBarrage.use KeydownSkill.use
+      by_cases hc : (!(FullMetalBarrage.kdS s).cooldown.available || (FullMetalBarrage.kdS s).keydown.running) = true
+      · left; simp only [hc, if_true]; rfl
+      · right; simp only [hc, if_false]; rfl
+    rcases h with h | h <;> rw [h]
+    · exact hi
+    · exact ⟨hi.1, Or.inl hd⟩
+  · have h : (FullMetalBarrage.stop p s).1.keydown = s.keydown ∨
+        (s.keydown.running = true ∧ (FullMetalBarrage.stop p s).1.keydown = s.keydown.stop) := by
+      unfold FullMetalBarrage.stop KeydownSkill.stop
+      by_cases hc : (FullMetalBarrage.kdS s).keydown.running = true
+      · right
+        refine ⟨hc, ?_⟩
+        simp only [hc, Bool.not_true, Bool.false_eq_true, if_false]
+        split <;> rfl
+      · left
+        simp only [Bool.not_eq_true] at hc
+        simp only [hc, Bool.not_false, if_true]
+        split <;> rfl
+    rcases h with h | ⟨hr, h⟩ <;> rw [h]
+    · exact hi
+    · have hpos : 0 < s.keydown.timeLeft := by simpa [Keydown.running] using hr
+      have hc : 0 ≤ s.keydown.intervalCounter := by have := hi.2; omega
+      exact ⟨hi.1, Or.inl hc⟩
+
 /-! non-vacuity: the hypotheses hold on the states the jobs start from / reach, and ticks do occur -/
 example : ({ interval := ms 1000, initialCounter := some (ms 1410), intervalCounter := ms 1410, timeLeft := ms 98700 } : Periodic).WF := by
   decide
